@@ -136,7 +136,7 @@ def run(ctx):
     S = 1 << 20
     runs = []
     for c2 in (1.0, 2.0, 0.5):
-        for nimg in (11, 21):
+        for nimg in (10, 16):
             for bent in (False, True):
                 runs.append((c2, nimg, bent))
     if quick:
